@@ -26,6 +26,7 @@ structure St where
   cs : List CT := []
   minersHr : Nat := 0
   nodeUp : Bool := false
+  progress : List (String × Int × Int) := []   -- per contract: work delivered at the last observation, and when it last grew
 
 def hostOf (payload : String) : Option String :=
   if payload.startsWith "v:" then some (String.ofList (payload.toList.drop 2)) else none
@@ -86,9 +87,23 @@ def mon (st : St) (op : List String) (outs : List (List String)) : St × List St
     else some s!"PROP miner {m} is directed to {w} although no contract with that destination is purchased, unexpired and decryptable"
   -- S2
   let s2 := if nild = 0 then [] else [s!"PROP a miner was pointed at a nil destination {nild} time(s): the stratum proxy dereferences it"]
-  -- S3: engaged after the start-up delay plus one cycle when hashrate is available
+  -- work delivered to each contract's destination so far (`delivered c1=.. c2=..`): when it last grew
+  let deliveredL := ((outs.find? (·.head? = some "delivered")).getD []).drop 1
+  let progress : List (String × Int × Int) := deliveredL.filterMap fun t => match t.splitOn "=" with
+    | [c, v] =>
+      let d := parseInt v
+      match before.progress.find? (fun (e : String × Int × Int) => e.1 = c) with
+      | some e => some (c, d, if d > e.2.1 then after.now else e.2.2)
+      | none => some (c, d, if d > 0 then after.now else 0)
+    | _ => none
+  let after := { after with progress := progress }
+  let lastGrew (c : String) : Int := ((progress.find? (fun (e : String × Int × Int) => e.1 = c)).map (·.2.2)).getD 0
+  -- S3: engaged after the start-up delay plus one cycle when hashrate is available: no miner is on the
+  -- contract now and no work has reached its destination for that long (one observation between two
+  -- jobs is not a gap)
   let s3 := after.cs.filterMap fun c => match c.liveSince with
-    | some t =>
+    | some t0 =>
+      let t := max t0 (lastGrew c.name)
       let others := (after.cs.filter fun x => x.name ≠ c.name ∧ x.liveSince.isSome).foldl (fun a x => a + x.hr) 0
       if after.now - t ≥ 80 ∧ after.now ≤ c.startedAt + c.len - 5 ∧ after.minersHr ≥ c.hr + others ∧
          !(placements.any fun (_, w) => w.startsWith (c.name ++ "@")) then
